@@ -66,21 +66,113 @@ end SSV.Stream
 namespace SSV.Stream
 open SSV.Gen.C01
 
+/-- the bytes a `ReadFrom` takes from its source: everything the source hands over up to and
+including the first result that carries an error (`io.EOF` or any other) -/
+def Src.taken : Src → Bytes
+  | [] => []
+  | it :: rest =>
+    match it.err with
+    | none => it.data ++ Src.taken rest
+    | some _ => it.data
+
+/-- the error `ReadFrom` returns: the first error the source reports, `io.EOF` (also the implicit one
+of an exhausted source) being the normal end -/
+def Src.firstErr : Src → Option Err
+  | [] => none
+  | it :: rest =>
+    match it.err with
+    | none => Src.firstErr rest
+    | some .eof => none
+    | some e => some e
+
+/-- the `ReadFrom` loop writes exactly the bytes the source handed over — also those returned together
+with an error — in chunks within the limit. Depends on the regenerated fact `readFromHandlesDataFirst`. -/
+theorem readFromLoop_spec (cap : Nat) (hc0 : 0 < cap) :
+    ∀ (fuel : Nat) (s : Src) (acc : List Bytes), s.size < fuel →
+      ∃ new, (readFromLoop cap fuel s acc).1 = acc.reverse ++ new ∧ new.flatten = s.taken ∧
+        (∀ p ∈ new, p.length ≠ 0 ∧ p.length ≤ cap) ∧ (readFromLoop cap fuel s acc).2.1 = s.firstErr := by
+  have hf : readFromHandlesDataFirst = true := by decide
+  intro fuel
+  induction fuel with
+  | zero => intro s acc h; omega
+  | succ f ih =>
+    intro s acc hsz
+    cases s with
+    | nil => exact ⟨[], by simp [readFromLoop, Src.read], rfl, by simp, by simp [readFromLoop, Src.read, Src.firstErr]⟩
+    | cons it rest =>
+      by_cases hle : it.data.length ≤ cap
+      · have hrd : Src.read cap (it :: rest) = ((it.data, it.err), rest) := by simp [Src.read, hle]
+        cases herr : it.err with
+        | some e =>
+          by_cases h0 : it.data.length > 0
+          · refine ⟨[it.data], ?_, by simp [Src.taken, herr], ?_, ?_⟩
+            · cases e <;> simp [readFromLoop, hrd, herr, hf, h0]
+            · intro p hp; simp at hp; subst hp; exact ⟨by omega, hle⟩
+            · cases e <;> simp [readFromLoop, hrd, herr, hf, h0, Src.firstErr]
+          · have hnil : it.data = [] := List.length_eq_zero_iff.mp (by omega)
+            refine ⟨[], ?_, by simp [Src.taken, herr, hnil], by simp, ?_⟩
+            · cases e <;> simp [readFromLoop, hrd, herr, hf, h0]
+            · cases e <;> simp [readFromLoop, hrd, herr, hf, h0, Src.firstErr]
+        | none =>
+          have hsz' : Src.size rest < f := by simp [Src.size] at hsz; omega
+          by_cases h0 : it.data.length > 0
+          · obtain ⟨new, h1, h2, h3, h4⟩ := ih rest (it.data :: acc) hsz'
+            refine ⟨it.data :: new, ?_, by simp [Src.taken, herr, h2], ?_, ?_⟩
+            · simp [readFromLoop, hrd, herr, hf, h0, h1]
+            · intro p hp
+              rcases List.mem_cons.mp hp with rfl | hp
+              · exact ⟨by omega, hle⟩
+              · exact h3 p hp
+            · simpa [readFromLoop, hrd, herr, hf, h0, Src.firstErr] using h4
+          · have hnil : it.data = [] := List.length_eq_zero_iff.mp (by omega)
+            obtain ⟨new, h1, h2, h3, h4⟩ := ih rest acc hsz'
+            refine ⟨new, ?_, by simp [Src.taken, herr, h2, hnil], h3, ?_⟩
+            · simp [readFromLoop, hrd, herr, hf, h0, h1]
+            · simpa [readFromLoop, hrd, herr, hf, h0, Src.firstErr] using h4
+      · have hgt : cap < it.data.length := by omega
+        have hrd : Src.read cap (it :: rest) = ((it.data.take cap, none), { it with data := it.data.drop cap } :: rest) := by
+          simp [Src.read, hle]
+        have h0 : 0 < min cap it.data.length := by omega
+        have hsz' : Src.size ({ it with data := it.data.drop cap } :: rest) < f := by
+          simp only [Src.size, List.length_drop] at hsz ⊢; omega
+        obtain ⟨new, h1, h2, h3, h4⟩ := ih _ (it.data.take cap :: acc) hsz'
+        refine ⟨it.data.take cap :: new, ?_, ?_, ?_, ?_⟩
+        · simp [readFromLoop, hrd, hf, h0, h1]
+        · simp only [List.flatten_cons, h2, Src.taken]
+          cases it.err with
+          | none => simp only []; rw [← List.append_assoc, List.take_append_drop]
+          | some e => simp only []; rw [List.take_append_drop]
+        · intro p hp
+          rcases List.mem_cons.mp hp with rfl | hp
+          · exact ⟨by simp only [List.length_take]; omega, by simp only [List.length_take]; omega⟩
+          · exact h3 p hp
+        · have hfe : Src.firstErr ({ it with data := it.data.drop cap } :: rest) = Src.firstErr (it :: rest) := by
+            simp [Src.firstErr]
+          rw [← hfe]
+          simpa [readFromLoop, hrd, hf, h0] using h4
+
 /-- one call on the writing side of a `ShadowStreamConn` -/
 inductive WCall
   /-- `Write(b)` -/
   | write (b : Bytes)
-  /-- `ReadFrom(r)` with a source that returns these pieces (a piece longer than the buffer is
-  returned in several reads) -/
-  | readFrom (pieces : List Bytes)
+  /-- `ReadFrom(r)` with a scripted source: short reads of every size, `(0, nil)` reads, data
+  returned together with `io.EOF` or with another error -/
+  | readFrom (src : Src)
 
 def WCall.chunks : WCall → List Bytes
   | .write b => writeChunks b
-  | .readFrom ps => readFromChunks streamMaxPayloadSize ps
+  | .readFrom src => (connReadFrom src).1
 
+/-- the bytes the call takes from its caller / source -/
 def WCall.data : WCall → Bytes
   | .write b => b
-  | .readFrom ps => ps.flatten
+  | .readFrom src => src.taken
+
+theorem connReadFrom_spec (src : Src) :
+    ValidChunks (connReadFrom src).1 ∧ (connReadFrom src).1.flatten = src.taken ∧ (connReadFrom src).2.1 = src.firstErr := by
+  obtain ⟨new, h1, h2, h3, h4⟩ := readFromLoop_spec streamMaxPayloadSize (by decide) (src.size + 1) src [] (by omega)
+  simp only [List.reverse_nil, List.nil_append] at h1
+  exact ⟨by rw [connReadFrom, h1]; exact h3, by rw [connReadFrom, h1]; exact h2, h4⟩
 
 theorem calls_valid (calls : List WCall) : ValidChunks (calls.flatMap WCall.chunks) := by
   induction calls with
@@ -90,7 +182,7 @@ theorem calls_valid (calls : List WCall) : ValidChunks (calls.flatMap WCall.chun
     refine ValidChunks.append ?_ ih
     cases c with
     | write b => exact writeChunks_valid b
-    | readFrom ps => exact readFromChunks_valid _ (by decide) (Nat.le_refl _) ps
+    | readFrom src => exact (connReadFrom_spec src).1
 
 theorem calls_flatten (calls : List WCall) :
     (calls.flatMap WCall.chunks).flatten = (calls.map WCall.data).flatten := by
@@ -100,7 +192,7 @@ theorem calls_flatten (calls : List WCall) :
     simp only [List.flatMap_cons, List.flatten_append, List.map_cons, List.flatten_cons, ih]
     cases c with
     | write b => simp [WCall.chunks, WCall.data, writeChunks_flatten]
-    | readFrom ps => simp [WCall.chunks, WCall.data, readFromChunks_flatten]
+    | readFrom src => simp [WCall.chunks, WCall.data, (connReadFrom_spec src).2.1]
 
 /-- the reader state after a schedule (for `nonce_lockstep`) -/
 def Reader.after (C : Crypto) : Reader → List ROp → Reader
